@@ -21,6 +21,7 @@ type SExpr struct {
 	Args []*SExpr
 	// quant
 	Binders []binder
+	Pats    [][]*SExpr
 	Text    string
 }
 
@@ -204,9 +205,22 @@ func (p *sparser) expr() *SExpr {
 			}
 			break
 		}
+		var pats [][]*SExpr
+		for p.isOp("{") {
+			p.p++
+			var alt []*SExpr
+			for !p.isOp("}") {
+				alt = append(alt, p.expr())
+				if p.isOp(",") {
+					p.p++
+				}
+			}
+			p.expectOp("}")
+			pats = append(pats, alt)
+		}
 		p.expectOp("::")
 		body := p.expr()
-		return p.mk(start, &SExpr{Kind: "quant", Op: q, Binders: bs, Args: []*SExpr{body}})
+		return p.mk(start, &SExpr{Kind: "quant", Op: q, Binders: bs, Pats: pats, Args: []*SExpr{body}})
 	}
 	c := p.iff()
 	if p.isOp("?") {
@@ -462,6 +476,7 @@ type Contract struct {
 	Asserts  map[string][]*Clause
 	Alloc    *SExpr
 	Impl     []string // interface contracts this function must also satisfy
+	Anys     []binder // universally quantified ghost constants ("any t int")
 }
 
 type SpecFunc struct {
@@ -507,7 +522,7 @@ func (c ContractError) Error() string { return "CONTRACT-ERROR: " + c.msg }
 
 var clauseKeywords = map[string]bool{"func": true, "requires": true, "ensures": true, "modifies": true, "loop": true,
 	"spec": true, "axiom": true, "pred": true, "ghost": true, "inline": true, "trusted": true, "let": true, "tags": true,
-	"noeffect": true, "pure": true, "mode": true, "update": true, "const": true, "alloc": true, "implements": true, "end": true}
+	"noeffect": true, "pure": true, "mode": true, "update": true, "const": true, "alloc": true, "implements": true, "end": true, "any": true}
 
 // parseContractText parses the //@ lines of one file. pkg is the package path ("" for library specs).
 func (ss *SpecSet) parseContractText(file, pkg string, lines []string, lineNos []int) error {
@@ -552,22 +567,32 @@ func (ss *SpecSet) parseContractText(file, pkg string, lines []string, lineNos [
 		switch kw {
 		case "func":
 			c := &Contract{Pkg: pkg, Loops: map[string]*LoopSpec{}, File: file, Line: it.line, Lib: pkg == "", Asserts: map[string][]*Clause{}}
-			fields := strings.Fields(rest)
-			if len(fields) == 0 {
+			key, attrs := splitFirst(rest)
+			if key == "" {
 				return fail(it, "func needs a key")
 			}
-			c.Key = fields[0]
-			for _, f := range fields[1:] {
-				switch {
-				case strings.HasPrefix(f, "recv(") && strings.HasSuffix(f, ")"):
-					c.Recv = f[5 : len(f)-1]
-				case strings.HasPrefix(f, "params(") && strings.HasSuffix(f, ")"):
-					c.Params = splitList(f[7 : len(f)-1])
-				case strings.HasPrefix(f, "results(") && strings.HasSuffix(f, ")"):
-					c.Results = splitList(f[8 : len(f)-1])
-				default:
-					return fail(it, "unknown func attribute "+f)
+			c.Key = key
+			for attrs != "" {
+				i := strings.Index(attrs, "(")
+				j := strings.Index(attrs, ")")
+				if i < 0 || j < i {
+					return fail(it, "malformed func attribute "+attrs)
 				}
+				name := strings.TrimSpace(attrs[:i])
+				list := splitList(attrs[i+1 : j])
+				switch name {
+				case "recv":
+					if len(list) == 1 {
+						c.Recv = list[0]
+					}
+				case "params":
+					c.Params = list
+				case "results":
+					c.Results = list
+				default:
+					return fail(it, "unknown func attribute "+name)
+				}
+				attrs = strings.TrimSpace(attrs[j+1:])
 			}
 			k := contractKey(pkg, c.Key)
 			if _, dup := ss.Contracts[k]; dup {
@@ -666,6 +691,19 @@ func (ss *SpecSet) parseContractText(file, pkg string, lines []string, lineNos [
 			} else {
 				cur.Ghosts = append(cur.Ghosts, d)
 			}
+		case "any":
+			if cur == nil {
+				return fail(it, "any outside func")
+			}
+			f := strings.Fields(rest)
+			if len(f) == 0 || len(f) > 2 {
+				return fail(it, "any NAME [TYPE]")
+			}
+			b := binder{Name: f[0], Type: "int"}
+			if len(f) == 2 {
+				b.Type = f[1]
+			}
+			cur.Anys = append(cur.Anys, b)
 		case "tags":
 			if cur == nil {
 				return fail(it, "tags outside func")
